@@ -243,6 +243,12 @@ class PyNav(PyVal):
         self.kind, self.handle, self.chain, self.pending = kind, handle, chain, pending
 
 
+class PyStarSeq(PyVal):
+    """*seq at a call site, where seq is a symbolic sequence"""
+    def __init__(self, seq):
+        self.seq = seq
+
+
 class PyTypeOf(PyVal):
     """type(x) of a model instance: only its __name__ is meaningful (the key letters of the metaclass)"""
     def __init__(self, obj):
